@@ -26,7 +26,8 @@ Local Open Scope N_scope.
 
 (* LY_ERR numbers used as error classes *)
 Definition E_INVAL : N := 3.
-Definition E_EXIST : N := 6.
+Definition E_EXIST : N := 4.
+Definition E_LYINT : N := 6.       (* LY_EINT *)
 Definition E_VALID : N := 7.
 Definition E_UNSUP : N := 100.     (* input outside the modelled fragment *)
 Definition E_FUEL : N := 101.      (* fuel ran out (never with the fuel the entry points pass) *)
@@ -36,7 +37,7 @@ Definition E_INT : N := 102.       (* a state the preceding checks exclude *)
 (* schema and data                                                                               *)
 (* ------------------------------------------------------------------------------------------- *)
 Inductive pkind :=
-| KCont                              (* container, rpc, action, notification: lyd_create_inner() *)
+| KCont (presence : bool)            (* container (presence: LYS_PRESENCE); rpc, action, notification count as presence = true *)
 | KList (keyless cfgw : bool)        (* LYS_LIST with LYS_KEYLESS / LYS_CONFIG_W *)
 | KLeafList (cfgw : bool)            (* LYS_LEAFLIST with LYS_CONFIG_W *)
 | KLeaf (iskey : bool)               (* LYS_LEAF with LYS_KEY *)
@@ -57,7 +58,7 @@ Definition d_ch (x : dnode) : list dnode := match x with DN _ _ _ _ ch => ch end
 
 Definition kind_eqb (a b : pkind) : bool :=
   match a, b with
-  | KCont, KCont => true
+  | KCont a1, KCont b1 => Bool.eqb a1 b1
   | KList a1 a2, KList b1 b2 => Bool.eqb a1 b1 && Bool.eqb a2 b2
   | KLeafList a1, KLeafList b1 => Bool.eqb a1 b1
   | KLeaf a1, KLeaf b1 => Bool.eqb a1 b1
@@ -657,7 +658,7 @@ Fixpoint mk_chain (value : bytes) (l : list cseg) : res (list dnode) :=
               | CKeys kl => Ok [DN m n k [] (key_nodes (target_keys (cs_keys cs) kl) ++ sub)]
               | _ => Err E_INT             (* excluded by check_find *)
               end
-          | KCont => Ok [DN m n k [] sub]
+          | KCont _ => Ok [DN m n k [] sub]
           | KLeafList _ =>
               match cs_pred cs with
               | CDot v => Ok [DN m n k v []]
@@ -665,7 +666,14 @@ Fixpoint mk_chain (value : bytes) (l : list cseg) : res (list dnode) :=
               end
           | KLeaf true => Ok []
           | KLeaf false => if str_ok value then Ok [DN m n k value []] else Err E_VALID
-          | KAny => Ok [DN m n k [] []]
+          | KAny =>
+              (* lyd_create_any(anydata, value, LYD_ANYDATA_STRING): NULL (the empty value) is an empty tree; text that
+                 looks like XML, JSON or LYB is parsed (not modelled); any other string is LOGINT *)
+              match value with
+              | [] => Ok [DN m n k [] []]
+              | 60 :: _ | 123 :: _ | 108 :: 121 :: 98 :: _ => Err E_UNSUP
+              | _ => Err E_LYINT
+              end
           end
       end
   end.
@@ -682,6 +690,14 @@ Definition children_at (t : list dnode) (attach : option (list nat)) : list dnod
   match attach with
   | None => t
   | Some p => match node_at t p with Some x => d_ch x | None => [] end
+  end.
+
+(* node->flags & LYD_DEFAULT in a tree without default leaves (parsed without implicit nodes): lyd_create_inner() sets the
+   flag on a non-presence container and it is cleared as soon as a non-default child is inserted *)
+Fixpoint is_dflt (x : dnode) {struct x} : bool :=
+  match x with
+  | DN _ _ (KCont false) _ ch => forallb is_dflt ch
+  | _ => false
   end.
 
 Inductive nres :=
@@ -720,7 +736,13 @@ Definition new_path (S : list snode) (t : list dnode) (path value : bytes) : nre
           match eval_segs search t with
           | EFound p =>
               match newc with
-              | None => NErr E_EXIST
+              | None =>
+                  (* the node exists: LY_EEXIST unless it is a default node; lyd_new_path_update() of a container
+                     changes nothing and reports no new node *)
+                  match node_at t p with
+                  | Some x => if is_dflt x then NCreated None [] else NErr E_EXIST
+                  | None => NErr E_INT
+                  end
               | Some _ => cont (length search) (Some p)
               end
           | EPartial p => cont (length p) (Some p)
@@ -753,14 +775,20 @@ Fixpoint swf_node (s : snode) {struct s} : bool :=
   | SN m n k ch =>
       name_ok m && name_ok n &&
       match k with
-      | KList false _ => match schema_keys ch with [] => false | _ => true end && keys_resolve m ch
-      | KList true _ => match schema_keys ch with [] => true | _ => false end
-      | KCont => true
+      | KList false _ =>
+          match schema_keys ch with [] => false | _ => true end && keys_resolve m ch &&
+          forallb (fun c => negb (is_key_kind (s_k c))) (skipn (length (schema_keys ch)) ch)
+      | KList true cfgw => negb cfgw && forallb (fun c => negb (is_key_kind (s_k c))) ch
+      | KCont _ => forallb (fun c => negb (is_key_kind (s_k c))) ch
       | _ => match ch with [] => true | _ => false end
       end &&
       forallb swf_node ch
   end.
-Definition swf (S : list snode) : bool := forallb swf_node S.
+(* names are identifiers; a list with keys has at least one, they lead its children, belong to its module and have
+   different names; a key-less list has no LYS_CONFIG_W (lys_compile: a configuration list needs keys); key leaves occur
+   nowhere else; terms have no children *)
+Definition swf (S : list snode) : bool :=
+  forallb swf_node S && forallb (fun c => negb (is_key_kind (s_k c))) S.
 
 (* may node x follow the siblings [before] (nearest first)?
      positional nodes: the instances of one schema node are contiguous (lyd_insert_node keeps them so);
@@ -819,13 +847,14 @@ Fixpoint dwf_node (sc : list snode) (x : dnode) {struct x} : bool :=
       | Some s =>
           kind_eqb (s_k s) k &&
           match k with
-          | KCont | KList _ _ | KAny => match v with [] => true | _ => false end
+          | KCont _ | KList _ _ | KAny => match v with [] => true | _ => false end
           | _ => str_ok v
           end &&
           match k with
           | KList false _ =>
-              keys_agree (lead_keys ch) (schema_keys (s_ch s))
-          | KCont | KList true _ => true
+              keys_agree (lead_keys ch) (schema_keys (s_ch s)) &&
+              forallb (fun c => negb (is_key_kind (d_k c))) (skipn (length (lead_keys ch)) ch)
+          | KCont _ | KList true _ => forallb (fun c => negb (is_key_kind (d_k c))) ch
           | _ => match ch with [] => true | _ => false end
           end &&
           sibs_ok [] ch && (N.of_nat (length ch) <? 2147483648) &&
@@ -833,7 +862,8 @@ Fixpoint dwf_node (sc : list snode) (x : dnode) {struct x} : bool :=
       end
   end.
 Definition dwf (S : list snode) (t : list dnode) : bool :=
-  sibs_ok [] t && (N.of_nat (length t) <? 2147483648) && forallb (dwf_node S) t.
+  sibs_ok [] t && (N.of_nat (length t) <? 2147483648) && forallb (dwf_node S) t &&
+  forallb (fun c => negb (is_key_kind (d_k c))) t.
 
 (* the known defect (Properties_C15_ytext.v, C15_path_literal_both_quotes_refuted): a key or configuration leaf-list
    value with both quote characters cannot be written in a predicate; kept as an explicit hypothesis *)
